@@ -32,6 +32,8 @@
 (*   "nomax"     MaxStep is not passed to Compile                          *)
 (*   "rdlast"    the LAST return-directly call is recorded, not the first  *)
 (*   "modleak"   the modifier's output is stored back into the state       *)
+(*   "noclose"   the default checker returns on plain text without closing *)
+(*               its copy of the model stream                              *)
 (*   "nocopy"    the modifier is handed the live history slice (no copy),  *)
 (*               so an in-place modifier rewrites the stored history       *)
 (***************************************************************************)
@@ -130,7 +132,10 @@ StartRun == /\ pc = "startrun" /\ run < 2
             /\ st' = <<>> /\ inp' = OrigOf(IF run = 0 THEN "generate" ELSE "stream") /\ rdid' = "" /\ step' = 0 /\ k' = 0 /\ cur' = <<>> /\ chunks' = <<>> /\ pend' = {} /\ outs' = <<>>
             /\ pc' = "chat" /\ UNCHANGED sc
 AllDone == /\ pc = "startrun" /\ run = 2
-           /\ S' = Apply(S, [ev |-> "end"]) /\ pc' = "done"
+           \* early-close probe: the branch's checker closes its copy of the model stream on every exit ("noclose": not on the
+           \* plain-text exit of the default first-chunk checker)
+           /\ S' = Apply(Apply(S, [ev |-> "early", released |-> ~(Bug = "noclose" /\ sc.checker = "default" /\ \E j \in 1..NM : Len(sc.script[j].calls) = 0)]),
+                         [ev |-> "end"]) /\ pc' = "done"
            /\ UNCHANGED <<sc, cur, run, st, inp, rdid, step, k, chunks, pend, outs>>
 
 \* how the scripted model streams message m: a sequence of [c |-> has text content, tc |-> has tool calls]
